@@ -13,10 +13,11 @@ var singleVariants = []string{
 	"extract-in-recursion", "singleton-of-list-type", "singleton-of-int-type",
 }
 
-func singleCount() int { return len(singleVariants) }
+func singleCount() int { return len(singleVariants) * 2 }
 
 func singleGen(idx int) (progCase, bool) {
-	v := singleVariants[idx]
+	hostProvided := idx%2 == 1
+	v := singleVariants[idx/2]
 	sT := hs.TObj(hs.Field{Name: "n", T: hs.TInt}, hs.Field{Name: "s", T: hs.TStr}, hs.Field{Name: "l", T: hs.TList(hs.TInt)})
 	prog := &hs.Program{Singletons: []hs.SingletonDecl{{Name: "S", T: sT}}}
 	self := hs.Param{Name: "self", Single: "S"}
@@ -74,7 +75,27 @@ func singleGen(idx int) (progCase, bool) {
 	}
 	body = append(body, hs.Println(hs.S("end")))
 	add(hs.Fn("main", nil, hs.Blk(nil, body...)))
-	return mkCase(prog, "singleton:"+v), true
+	pc := mkCase(prog, "singleton:"+v)
+	if hostProvided {
+		// the host provides a saved instance of every declared singleton
+		pc.Tags = append(pc.Tags, "host-provided", "vm-only")
+		pc.HostSingletons = map[string]hs.Val{}
+		for _, sd := range prog.Singletons {
+			switch sd.T.K {
+			case hs.KObj:
+				if len(sd.T.Fields) == 3 {
+					pc.HostSingletons[sd.Name] = &hs.ObjV{Keys: []string{"n", "s", "l"}, F: map[string]hs.Val{"n": int64(40), "s": "host", "l": &hs.ListV{Elems: []hs.Val{int64(8), int64(9)}}}}
+				} else {
+					pc.HostSingletons[sd.Name] = &hs.ObjV{Keys: []string{"n"}, F: map[string]hs.Val{"n": int64(7)}}
+				}
+			case hs.KList:
+				pc.HostSingletons[sd.Name] = &hs.ListV{Elems: []hs.Val{int64(5)}}
+			case hs.KInt:
+				pc.HostSingletons[sd.Name] = int64(33)
+			}
+		}
+	}
+	return pc, true
 }
 
 var triggerVariants = []string{"literal", "expression", "call-arg", "two-triggers", "in-loop", "in-if-not-taken", "in-callee", "after-output", "in-try", "same-callback-twice"}
